@@ -18,8 +18,7 @@ RULE = (
     'non-trivial = some contender had to wait (slept) while the resource was held; distinct by SHA-1 of the case'
 )
 ASSUMPTIONS = [
-    'contenders are threads (separate SQLite connections, or one shared Cache object); the lock protocol is the same '
-    'SQLite write lock for processes',
+    'contenders are threads (separate SQLite connections, or one shared Cache object) and, in process_contenders, forked OS processes',
     'liveness is bounded: a fair round-robin tail and a step limit; hitting the limit is reported as a violation',
 ]
 
